@@ -227,6 +227,8 @@ func (s *SoftwrapScanner) Scan(ctx vxfw.DrawContext) bool {
 			s.rest = append(s.rest, trSpace...)
 			// Append the rest...
 			s.rest = append(s.rest, rest...)
+			// The line segmentation restarts inside the word
+			s.state = -1
 			return true
 		}
 
